@@ -235,3 +235,57 @@ def run(ops, on_step=None, stop_on_error=False):
 
 def errors(st):
     return [o for o in st.outcomes if o.startswith("error:")]
+
+
+# ---- read-only observations interleaved with construction ---------------------------------------------------
+# "Looking at a document while it is being built must not change what is finally built or exported": accessors, printing,
+# comparing, hashing and look-ups are observations.  They are issued between the operations of a program (seeded), which turns
+# every property over documents into a property over *histories with observations* (stale caches, accessor side effects).
+def make_observer(rng, p=0.35):
+    def observe(i, op, out, res, st):
+        if rng.random() > p:
+            return
+        try:
+            doc = st.doc
+            conts = [doc] + list(doc.bundles) + [st.tg[t] for t in st.detached if t in st.tg]
+            c = rng.choice(conts)
+            recs = c.get_records()
+            what = rng.choice(["accessors", "provn", "json", "eqhash", "lookup", "listing", "repr"])
+            if what == "accessors":
+                for r_ in recs[-4:]:
+                    r_.args, r_.formal_attributes, r_.extra_attributes, r_.attributes
+                    r_.label, r_.value, r_.get_asserted_types(), r_.identifier, r_.bundle
+                    r_.get_attribute("prov:type"), r_.get_attribute("prov:label"), r_.get_attribute("prov:location")
+                    if hasattr(r_, "get_startTime"):
+                        r_.get_startTime(), r_.get_endTime()
+                    r_.is_element(), r_.is_relation(), r_.get_type()
+            elif what == "provn":
+                doc.get_provn()
+                for r_ in recs[-3:]:
+                    r_.get_provn()
+            elif what == "json":
+                doc.serialize(format="json")
+            elif what == "eqhash":
+                for r_ in recs[-4:]:
+                    hash(r_)
+                    r_ == r_
+                len(set(recs))
+                c == c
+                doc == doc
+            elif what == "lookup":
+                for r_ in recs[-3:]:
+                    if r_.identifier is not None:
+                        c.get_record(r_.identifier.uri)
+                        c.get_record(str(r_.identifier))
+                c.get_record("urn:nothing:here")
+            elif what == "listing":
+                c.records, list(c.get_records(pm.ProvElement)), c.namespaces, c.get_default_namespace(), c.identifier
+                doc.has_bundles(), list(doc.bundles), c.is_bundle(), c.is_document()
+            else:
+                for r_ in recs[-4:]:
+                    repr(r_), str(r_)
+                repr(c)
+            st.observations = getattr(st, "observations", 0) + 1
+        except Exception as e:       # an observation that raises is recorded; the property checks judge the final state
+            st.observation_errors = getattr(st, "observation_errors", 0) + 1
+    return observe
